@@ -24,6 +24,11 @@ struct ConvSpec {
     auth_reject: bool,
     uniform_read: usize,
     write_cap: usize,
+    /// the client waits for every reply before it sends the next command
+    lockstep: bool,
+    /// multi-megabyte conversation: end-of-stream only around packet headers and message ends,
+    /// one error kind
+    sparse: bool,
 }
 
 const KINDS: [io::ErrorKind; 4] = [
@@ -73,6 +78,26 @@ fn run_spec(spec: &ConvSpec, stream: &Arc<Vec<u8>>, fault: Option<Fault>) -> Out
     sim.uniform_read = spec.uniform_read;
     sim.write_cap = spec.write_cap;
     sim.fault = fault;
+    sim.log_ops = true;
+    if spec.lockstep {
+        // the client sends nothing before the greeting and waits for every owed reply
+        let conv = Conv::new(spec.cmds.clone());
+        let ends = conv.stream().ends;
+        let mut gates = vec![Gate { pos: 0, need: 1 }];
+        let mut need = 2;
+        gates.push(Gate { pos: ends[0], need });
+        for (i, c) in conv.cmds.iter().enumerate() {
+            if c.resp != RespKind::None {
+                need += 1;
+            }
+            if ends[i + 1] < stream.len() {
+                gates.push(Gate { pos: ends[i + 1], need });
+            }
+        }
+        gates.retain(|g| g.pos < stream.len() || g.pos == 0);
+        sim.gates = gates;
+        sim.gate_fn = Some(Box::new(move |flushed| complete_replies(flushed, &conv)));
+    }
     let mut cfg = ConnCfg::new(behave_for(spec));
     if spec.auth_reject {
         cfg.auth_reject = Some(999);
@@ -89,6 +114,8 @@ struct FaultFamily {
     base_res: ConnResult,
     base_cbs: usize,
     write_ops: Vec<usize>,
+    eof_points: Vec<usize>,
+    per_op: u64,
 }
 
 #[derive(Debug)]
@@ -106,7 +133,26 @@ impl FaultFamily {
         let o = run_spec(&spec, &stream, None);
         let base_ops: Vec<OpKind> = o.sim.ops.iter().map(|x| x.kind).collect();
         let write_ops = base_ops.iter().enumerate().filter(|(_, k)| **k == OpKind::Write).map(|(i, _)| i).collect();
+        let eof_points: Vec<usize> = if spec.sparse {
+            let mut v: Vec<usize> = Vec::new();
+            for h in s.headers.iter().chain(s.ends.iter()) {
+                for d in -6i64..=6 {
+                    let p = *h as i64 + d;
+                    if p >= 0 && p as usize <= stream.len() {
+                        v.push(p as usize);
+                    }
+                }
+            }
+            v.sort();
+            v.dedup();
+            v
+        } else {
+            (0..=stream.len()).collect()
+        };
+        let per_op = if spec.sparse { 2 } else { 8 };
         FaultFamily {
+            eof_points,
+            per_op,
             spec,
             conv,
             stream,
@@ -118,22 +164,22 @@ impl FaultFamily {
         }
     }
     fn spec_of(&self, idx: u64) -> Spec {
-        let m = self.stream.len() as u64;
-        if idx <= m {
-            return Spec::Eof(idx as usize);
+        let m = self.eof_points.len() as u64;
+        if idx < m {
+            return Spec::Eof(self.eof_points[idx as usize]);
         }
-        let r = idx - m - 1;
+        let r = idx - m;
         let n = self.base_ops.len() as u64;
-        if r < n * 8 {
-            let at = (r / 8) as usize;
-            let kind = KINDS[((r % 8) / 2) as usize];
+        if r < n * self.per_op {
+            let at = (r / self.per_op) as usize;
+            let kind = KINDS[((r % self.per_op) / 2) as usize];
             return Spec::Err {
                 at,
                 kind,
                 persistent: r % 2 == 1,
             };
         }
-        Spec::ZeroWrite(self.write_ops[(r - n * 8) as usize])
+        Spec::ZeroWrite(self.write_ops[(r - n * self.per_op) as usize])
     }
     /// what must run_on return when the stream ends after k bytes: Ok(true)=Ok, Ok(false)=Err
     /// (any), Err(m)=the marker m; plus the number of callbacks that must have run
@@ -176,7 +222,7 @@ impl Family for FaultFamily {
         format!("faults:{}", self.spec.label)
     }
     fn len(&self) -> u64 {
-        self.stream.len() as u64 + 1 + self.base_ops.len() as u64 * 8 + self.write_ops.len() as u64
+        self.eof_points.len() as u64 + self.base_ops.len() as u64 * self.per_op + self.write_ops.len() as u64
     }
     fn run(&self, idx: u64, st: &mut Stats) -> Result<(), Violation> {
         let sp = self.spec_of(idx);
@@ -306,14 +352,20 @@ fn specs(quick: bool) -> Vec<ConvSpec> {
         ("complete_one+drop", vec![WOp::CompleteOne(9, 9), WOp::Drop]),
     ];
     let mut v = Vec::new();
-    let modes: Vec<(usize, usize, &str)> = if quick {
-        vec![(usize::MAX, usize::MAX, "whole reads"), (1, usize::MAX, "1-byte reads"), (usize::MAX, 5, "5-byte writes")]
+    let modes: Vec<(usize, usize, bool, &str)> = if quick {
+        vec![(usize::MAX, usize::MAX, false, "whole reads"), (usize::MAX, usize::MAX, true, "lock-step client"), (1, usize::MAX, false, "1-byte reads"), (usize::MAX, 5, false, "5-byte writes")]
     } else {
-        vec![(usize::MAX, usize::MAX, "whole reads"), (1, usize::MAX, "1-byte reads"), (usize::MAX, 5, "5-byte writes"), (3, 2, "3-byte reads, 2-byte writes")]
+        vec![(usize::MAX, usize::MAX, false, "whole reads"), (usize::MAX, usize::MAX, true, "lock-step client"), (1, usize::MAX, false, "1-byte reads"), (usize::MAX, 5, false, "5-byte writes"), (3, 2, false, "3-byte reads, 2-byte writes"), (7, usize::MAX, true, "lock-step client, 7-byte reads")]
     };
-    for (ur, wc, mname) in modes {
+    for (ur, wc, ls, mname) in modes {
         for (name, p) in &programs {
-            for bin in [false, true] {
+            // what the client sends behind the command under test: a command the library answers,
+            // a command for the shim and then QUIT, or QUIT at once (a masked failure would then
+            // even end in Ok)
+            for (bin, follow) in [(false, 0), (true, 0), (false, 1), (true, 1), (false, 2), (true, 2)] {
+                if follow > 0 && wc != usize::MAX {
+                    continue;
+                }
                 let mut cmds = Vec::new();
                 if bin {
                     cmds.push(ClientCmd::new(with_byte(COM_STMT_PREPARE, b"id=1 p=0")));
@@ -321,15 +373,24 @@ fn specs(quick: bool) -> Vec<ConvSpec> {
                 } else {
                     cmds.push(q(b"go"));
                 }
-                cmds.push(ping());
+                match follow {
+                    0 => cmds.push(ping()),
+                    1 => {
+                        cmds.push(q(b"next"));
+                        cmds.push(quit());
+                    }
+                    _ => cmds.push(quit()),
+                }
                 v.push(ConvSpec {
-                    label: format!("{} {} ({}) + ping", if bin { "execute" } else { "query" }, name, mname),
+                    label: format!("{} {} ({}) + {}", if bin { "execute" } else { "query" }, name, mname, ["ping", "query + quit", "quit"][follow]),
                     cmds,
                     progs: vec![Arc::new(p.clone())],
                     fail_at: None,
                     auth_reject: false,
                     uniform_read: ur,
                     write_cap: wc,
+                    lockstep: ls,
+                    sparse: false,
                 });
             }
         }
@@ -357,6 +418,8 @@ fn specs(quick: bool) -> Vec<ConvSpec> {
             auth_reject: false,
             uniform_read: ur,
             write_cap: wc,
+            lockstep: ls,
+            sparse: false,
         });
         // library replies
         v.push(ConvSpec {
@@ -373,6 +436,8 @@ fn specs(quick: bool) -> Vec<ConvSpec> {
             auth_reject: false,
             uniform_read: ur,
             write_cap: wc,
+            lockstep: ls,
+            sparse: false,
         });
         // hundreds of commands arriving in one read (only with whole reads)
         if ur == usize::MAX && wc == usize::MAX {
@@ -384,6 +449,8 @@ fn specs(quick: bool) -> Vec<ConvSpec> {
                 auth_reject: false,
                 uniform_read: ur,
                 write_cap: wc,
+                lockstep: ls,
+                sparse: false,
             });
         }
         // auth rejection with a pipelined command
@@ -395,6 +462,8 @@ fn specs(quick: bool) -> Vec<ConvSpec> {
             auth_reject: true,
             uniform_read: ur,
             write_cap: wc,
+            lockstep: ls,
+            sparse: false,
         });
         // a shim error at each kind of callback
         for (k, what) in ["query", "prepare", "execute", "init"].iter().enumerate() {
@@ -412,8 +481,26 @@ fn specs(quick: bool) -> Vec<ConvSpec> {
                 auth_reject: false,
                 uniform_read: ur,
                 write_cap: wc,
+                lockstep: ls,
+                sparse: false,
             });
         }
+    }
+    // multi-packet requests: end of stream and faults around every packet header
+    for size in if quick { vec![MAXP + 9] } else { vec![MAXP - 1, MAXP, MAXP + 9, 2 * MAXP, 2 * MAXP + 9] } {
+        let mut text = vec![b'w'; size - 1];
+        text[0] = b'k';
+        v.push(ConvSpec {
+            label: format!("query of {} payload bytes + ping", size),
+            cmds: vec![q(&text), ping()],
+            progs: vec![],
+            fail_at: None,
+            auth_reject: false,
+            uniform_read: usize::MAX,
+            write_cap: usize::MAX,
+            lockstep: false,
+            sparse: true,
+        });
     }
     v
 }
@@ -425,7 +512,7 @@ pub fn build(quick: bool) -> Check {
     Check {
         id: "C19",
         level: "fault_enumeration",
-        rule: format!("{} conversations (writer programs with explicit finish and with implicit drops, text and binary, chained results, long data, close, quit, library replies, auth rejection, a shim error in each callback; thorough: also under 1-byte reads and short writes). For each, from the operation log of its fault-free run: end of stream after every byte count 0..M, an error of each of 4 kinds once and persistently at every operation index, a zero-length write at every write. Oracle: Ok iff fault-free and the client quit or closed at a message boundary after the handshake; every fault => Err, never Ok, never a panic; no callback starts after the failed operation; a shim error is returned as the identical value. Non-trivial = a fault strictly inside the conversation (not a clean close).", n),
+        rule: format!("{} conversations (writer programs with explicit finish and with implicit drops, text and binary, chained results, long data, close, quit, library replies, auth rejection, a shim error in each callback; each writer program followed by a library-answered command, by another shim command + QUIT, and by QUIT alone; pipelined and with a lock-step client; under 1-byte reads and short writes; requests of 2^24-1 bytes and more with end-of-stream within 6 bytes of every packet header and message end). For each, from the operation log of its fault-free run: end of stream after every byte count 0..M, an error of each of 4 kinds once and persistently at every operation index, a zero-length write at every write. Oracle: Ok iff fault-free and the client quit or closed at a message boundary after the handshake; every fault => Err, never Ok, never a panic; no callback starts after the failed operation; a shim error is returned as the identical value. Non-trivial = a fault strictly inside the conversation (not a clean close).", n),
         assumptions: vec![
             "ErrorKind::Interrupted is not injected: std's write_all retries it by contract, so it is not a transport failure report".into(),
             "fault points are derived from the fault-free run of the tree under test, not from constants".into(),
